@@ -375,7 +375,8 @@ def report(prop, tier, seed, mod, hs, agg, wall, timed_out):
         for key, rv in agg.get("rev", {}).items():
             fw = agg.get("fwd", {}).get(key, dict(paths=0, labels=set()))
             nrev += 1
-            if rv["paths"] != fw["paths"] or rv["labels"] != fw["labels"]:
+            # (path counts may differ legitimately: optimisation queries with a 0.5 s budget decide how much is folded before forking)
+            if rv["labels"] != fw["labels"] or (rv["paths"] == 0) != (fw["paths"] == 0):
                 problems.append(f"HARNESS-ERROR exploration order changes the verdict (state leaking between paths?): {key[0]} {key[1]}: forward {fw['paths']} paths {sorted(fw['labels'])}, reversed {rv['paths']} paths {sorted(rv['labels'])}")
     agg["reversed_configs"] = nrev
     required = set() if os.environ.get("VERIF_ONLY") else set(meta.get("labels", []))
